@@ -8,14 +8,20 @@ Tie: the real serialise / deserialise / to_json / from_json (graph/export.py) an
 Cascade.serialise / Cascade.from_serialised (dill file) against Model/Export.lean on random DAGs
 and on graphs built by random fluent programs: reachable node set, serialised dict, its JSON image (or TypeError),
 the round-tripped node records of the dict, JSON, file and inverting-node-factory paths, the sinks chosen by
-deserialise, Graph.__eq__ both ways on every path; plus deserialise on hand-damaged dicts (missing parent entry ->
+deserialise, Graph.__eq__ both ways on every path; Graph.__eq__ both ways on a graph and a copy with ONE small change (payload,
+outputs reversed / repeated / added, input renamed / rewired / dropped / reordered, node renamed, sink dropped, none) against the
+model's graphEq and against the oracle's own comparison of nodes, outputs, inputs, payloads; plus deserialise on hand-damaged dicts (missing parent entry ->
 KeyError, missing output -> AttributeError, input named like a parameter on the call path -> TypeError or success).
 Opaque payload objects (functions, objects with a serialise() method) are numbered by IDENTITY per case, so that
 the comparison sees whether the very same object, a copy, or another object came back.
 Oracle: from the property text only: after each round trip (dict, JSON, file) the result, traversed
 by the oracle's own walk from the result's sinks, has exactly the original's nodes with the same
-outputs, inputs and payloads (JSON: for payloads JSON represents faithfully), `==` holds, and `==` says what
-Python's own comparison of the payloads says.
+outputs (as a list: order and repetitions), inputs (names, references, dict order) and payloads (same type, same value; JSON: for
+payloads JSON represents faithfully), and `==` says what Python's own comparison of the payloads says (True when they all compare
+equal, False when one differs; a comparison that raises with no differing payload must make `==` raise).  `==` itself is demanded
+wherever the payloads' own `==` can hold across a copy; where it cannot although the payload IS the same (a NaN; a function the
+file path re-creates) the outcome is measured (distribution keys measured:eq-false-by-python-semantics:*), not demanded: the
+property's text defines equal as "same nodes, outputs, inputs and payloads".
 """
 import functools
 import glob
@@ -38,45 +44,61 @@ LEVEL_TEXT = ("Lean theorems over Model/Export.lean (Node.serialise incl. the pa
               "from the chosen sinks (c12_nothing_lost, c12_json, c12_file, all full strength), and `==` in either direction is EXACTLY the "
               "conjunction of the payload comparisons (c12_dict_exact and the same clauses of c12_json, c12_file). Hence identical records and "
               "`==` through JSON for JSON-faithful payloads (c12_json); through the dict unless a payload is a NaN or has a serialise() method "
-              "(c12_dict_partial; both exclusions are needed: c12_dict_full_fails, c12_dict_hook_full_fails; an inverting node factory restores "
-              "such payloads: c12_hook_factory); through the file when dill behaves structurally (dillPV) unless a payload holds a NaN or an object "
+              "(c12_dict_partial; both exclusions are needed: c12_dict_full_fails, c12_dict_hook_full_fails; a node factory that maps what comes "
+              "back for every node to that node's payload - the object itself for a payload with serialise(), identity elsewhere - gives "
+              "identical records and `==` unless a payload is a NaN: c12_hook_factory, with an instance); through the file when dill behaves structurally (dillPV) unless a payload holds a NaN or an object "
               "dill pickles by value, e.g. a lambda (c12_file_partial, c12_file_full_fails). c12_reserved_subset is decided on the table "
-              "generated from the source. Unbounded in graph size and payload depth; tied to the real functions by a correspondence check on "
-              "random DAGs and fluent graphs.")
+              "generated from the source. The Lean statements are unbounded in graph size, numbers of inputs/outputs (repeated output names "
+              "included: WF asks for unique NODE names only) and payload depth, over the payload universe of ASSUMPTIONS[1]; the tie SAMPLES "
+              "them (RULE: up to 14 nodes, 7 outputs, 7 inputs, depth 3, a fixed list of value leaves) on random DAGs and fluent graphs; that the "
+              "real Graph.__eq__ is the model's graphEq also on graphs that DIFFER is carried by the tie only (eq-probe:* cases).")
 LEVEL_NOTE = ("modelled, not verified: graph/export.py serialise/deserialise/to_json/from_json/_deserialise_node/default_node_factory, nodes.py "
               "Node.serialise/Output.serialise/get_output, graph.py Graph.__eq__, workflows/__init__.py Cascade.serialise/from_serialised. "
               "Graph.nodes() is modelled by its result set (reachability sweep over a topological order); DFS order, graphlib.TopologicalSorter "
-              "order and dict order are not modelled (nothing in the property depends on them; results are compared sorted by name). Object "
+              "order and the order of the serialised dict's entries are not modelled (nothing in the property depends on them; node records are "
+              "compared sorted by name; the ORDER of a node's inputs dict and of its outputs list IS modelled and compared; the sink list is "
+              "compared as a sorted list, so with multiplicity). Object "
               "identity of nodes is a name (the property's unique-names hypothesis). json is trusted on the payload universe of the model; dill is "
               "a PARAMETER of c12_file (any map on payload values; names, output lists and references are assumed to be rebuilt exactly) and "
               "its structural behaviour dillPV (by-reference objects identical, by-value objects new) is sampled by the tie. Deserialised fluent "
               "graphs are bare graph.Node objects: the fluent Node class, its `attributes` dict and `_for_copy` tuple are not serialised; the "
               "property names nodes, outputs, inputs and payloads only, so this is measured (distribution key fluent-node-class-not-restored), not "
-              "demanded. bool/int/float cross-type equality and dict order in payload `==` are not modelled (stricter than Python, never needed "
-              "for a round trip).")
+              "demanded. bool/int/float and set/frozenset cross-type equality and dict order in payload `==` are not modelled (stricter than "
+              "Python, never needed for a round trip). Values of types json rejects (bytes, complex, set, frozenset, instances of a class "
+              "with __eq__) are LEAVES of the model (type name + canonical text): that dill rebuilds an equal value of the same type, and "
+              "that nothing on the dict path touches them, is what the tie compares. `==` being False for a NaN payload or for a function "
+              "re-created by dill is Python's comparison of the (same) payloads, not a round-trip loss: measured, and characterised exactly by "
+              "c12_dict_exact / c12_file together with the *_full_fails witnesses.")
 TECHNIQUE = ("Lean 4 proof (induction over the topological node list; reachability of every node from the terminal nodes; exact characterisation "
              "of Graph.__eq__ on a graph and its image) + AST translator of the keyword-bindable parameter names on the de-serialisation call "
              "path + differential correspondence with the real export functions")
 LEAN_PROPS = ["EkwVerif.Props.C12"]
 LEAN_DRIVERS = ["C12"]
-RULE = ("random DAG specs of 0-12 nodes (default-output, output-less and multi-output nodes; 0-3 inputs each from any earlier node's outputs, so "
-        "parents are shared; odd names; in 55% of the specs node names, output names and input-parameter names come from ONE pool: 26 fixed names "
+RULE = ("random DAG specs of 0-12 nodes (default-output, output-less and multi-output nodes with 1-6 outputs, in 8-15% of the multi-output nodes "
+        "one output name repeated; 0-6 inputs each from any earlier node's outputs, so parents are shared; in 6% of the specs a node twice in "
+        "the sink list; odd names; in 55% of the specs node names, output names and input-parameter names come from ONE pool: 26 fixed names "
         "(incl. '0' = DEFAULT_OUTPUT, '1', '__default__', dotted 'stats.mean' next to 'stats'/'mean', prefixes/suffixes 'n','n1','n10') plus the "
         "parameter names of EVERY function and method of graph/export.py, graph/nodes.py, graph/graph.py and class Cascade, read by introspection "
         "(input names: minus what Node.__init__ itself binds), node names being preferably the output names earlier nodes declare and references "
-        "preferring named outputs, names kept unique; payloads None/int/str/bool/float/list/tuple/dict nested to depth 3, dict keys str/int/bool/None "
-        "incl. keys that clash after JSON ('1' and 1); half of the specs 'rich': floats incl. inf and -0.0, by-reference functions, and ONE special "
-        "class per spec out of NaN (top level / nested), by-value callables (lambda, closure), payload objects with a serialise() method "
-        "(invertible by the harness's node factory or not; top level / nested); sinks = all terminal nodes, a subset of them, or terminals plus "
+        "preferring named outputs, names kept unique; payloads None/int/str/bool/float/list/tuple/dict nested to depth 3, strings incl. non-ASCII ones (BMP, astral, U+2028, NUL, "
+        "quote/backslash; 12% of the string leaves), dict keys str/int/bool/None "
+        "incl. keys that clash after JSON ('1' and 1); half of the specs 'rich': floats incl. inf and -0.0, by-reference functions, value leaves of "
+        "types json rejects (20 fixed values: bytes incl. non-UTF-8, complex, set, frozenset incl. nested, instances of a class with __eq__), and ONE "
+        "special class per spec out of NaN (top level / nested), by-value callables (lambda, closure), payload objects with a serialise() method "
+        "(invertible by the harness's node factory or not; top level / nested), value leaves at a higher rate (top level / inside a fluent-style "
+        "payload); sinks = all terminal nodes, a subset of them, or terminals plus "
         "inner nodes), graphs of random fluent programs (from_source with/without yields, map with module-level functions, lambdas and closures, "
         "sum/mean/max/min/prod with batching, add/multiply with scalar and action, select, concatenate, stack; single actions and "
-        "Cascade.from_actions unions), and hand-damaged dicts (missing entry, missing output, an input renamed to a parameter name of the call path). "
+        "Cascade.from_actions unions), for half of the DAG specs a copy with one small change (11 kinds, distribution keys eq-probe:*) for `==` on "
+        "different graphs, and hand-damaged dicts (missing entry, missing output, an input renamed to a parameter name of the call path). "
         "non-trivial = graph with >= 3 nodes having a terminal node with outputs or a multi-output parent; distinct by content hash")
 ASSUMPTIONS = [
     "node names are unique and the graph is acyclic (the property's quantifier); nodes are built by the Node constructor, so no input is called "
     "like a parameter of Node.__init__ (self, name, outputs, payload)",
-    "payload universe of the model: None, bool, int, str, float, list, tuple, dict with str/int/bool/None keys, opaque objects compared by identity "
-    "(functions, instances without __eq__), objects with a serialise() method compared by identity",
+    "payload universe of the model: None, bool, int, str, float, list, tuple, dict with str/int/bool/None keys, NaN-free values of types json "
+    "rejects that compare by value (bytes, complex, set, frozenset, instances of an importable class with __eq__ over its state; leaves of the "
+    "model), opaque objects compared by identity (functions, instances without __eq__), objects with a serialise() method compared by identity; "
+    "NOT in the universe: ndarray and other payloads whose != raises or is not a bool, objects with __eq__ AND a serialise() method",
     "dill rebuilds str, lists/tuples of str and dict skeletons exactly and pickles a function by reference iff it can be imported by its qualified "
     "name (the harness predicts that from the module, the tie compares it with what dill did)",
     "`same payload` for a function pickled by value means same code, defaults, closure contents and name (Python has no other equality for it)",
@@ -261,6 +283,63 @@ class C12Hook:
         return {"__c12hook__": self.hid, "v": self.value} if self.marked else self.value
 
 
+class C12Val:
+    """a payload object with VALUE equality over its state (module level: dill stores the class by reference and the
+    instance by state, so a copy comes back that is == the original)"""
+
+    def __init__(self, *state):
+        self.state = state
+
+    def __eq__(self, other):
+        return type(other) is C12Val and other.state == self.state
+
+    def __hash__(self):
+        return hash(self.state)
+
+    def __repr__(self):
+        return "C12Val%r" % (self.state,)
+
+
+VAL_TYPES = (bytes, complex, set, frozenset, C12Val)
+
+
+def canon_val(x):
+    """canonical text of a value leaf (what a round trip must give back, whatever the iteration order of a set)"""
+    if isinstance(x, (set, frozenset)):
+        return type(x).__name__ + "{" + ",".join(sorted(canon_val(e) for e in x)) + "}"
+    if isinstance(x, tuple):
+        return "(" + ",".join(canon_val(e) for e in x) + ")"
+    if isinstance(x, C12Val):
+        return "C12Val" + canon_val(x.state)
+    if isinstance(x, float):
+        return "float:" + ("nan" if x != x else x.hex())
+    if isinstance(x, complex):
+        return "complex:%s,%s" % (canon_val(x.real), canon_val(x.imag))
+    return type(x).__name__ + ":" + repr(x)
+
+
+# the value leaves the generator draws from: bytes (also non-UTF-8, non-ASCII), complex, set / frozenset (of int, str, bytes,
+# tuples, frozensets), instances of a class with __eq__ (flat and nested state)
+VALS = [b"xy", b"", b"\xff\x00", "\u00e9\u03a9".encode(), b"input0", 1 + 2j, complex(0.0, -0.0), -1.5j, complex(float("inf"), 1),
+        {1, "a"}, set(), {b"k", 2, (3, "t")}, frozenset({(1, b"z")}), frozenset({"x", "y"}), frozenset(), frozenset({frozenset({1}), 2}),
+        C12Val(), C12Val(1, "a"), C12Val((2, b"q"), frozenset({3})), C12Val("\u00e9")]
+VAL_TABLE = {(type(v).__name__, canon_val(v)): v for v in VALS}
+
+
+def val_tag(v):
+    return {"t": "val", "k": type(v).__name__, "v": canon_val(v)}
+
+
+def val_object(t):
+    """a NEW object for a value tag (mutable ones must not be shared between nodes)"""
+    v = VAL_TABLE[(t["k"], t["v"])]
+    if isinstance(v, set):
+        return set(v)
+    if isinstance(v, C12Val):
+        return C12Val(*v.state)
+    return v
+
+
 def inv_factory(name, outputs, payload, **inputs):
     """node factory that turns the serialised form of a marked C12Hook back into the object"""
     from earthkit.workflows.graph.export import default_node_factory
@@ -372,6 +451,8 @@ def tag(p, reg, register=True):
         return {"t": "tuple", "v": [tag(x, reg, register) for x in p]}
     if isinstance(p, dict):
         return {"t": "dict", "v": [[tag_key(k), tag(v, reg, register)] for k, v in p.items()]}
+    if isinstance(p, VAL_TYPES):
+        return val_tag(p)
     try:
         import numpy as np
         if isinstance(p, np.integer):
@@ -400,6 +481,8 @@ def untag(t, reg):
         return float("nan") if t["nan"] else float.fromhex(t["v"])
     if k == "atom":
         return reg.atom(t["id"], t["ref"])
+    if k == "val":
+        return val_object(t)
     if k == "hook":
         v = t["v"]
         marked = v["t"] == "dict" and [untag_key(e[0]) for e in v["v"]] == ["__c12hook__", "v"]
@@ -473,6 +556,11 @@ def scan(t, acc):
         acc.add("nan" if t["nan"] else "float")
     elif k == "atom":
         acc.add("by-reference-object" if t["ref"] else "by-value-object")
+    elif k == "val":
+        acc.add("value:" + t["k"])
+    elif k == "str":
+        if any(ord(c) > 127 for c in t["v"]):
+            acc.add("non-ascii-str")
     elif k == "hook":
         acc.add("hook")
         scan(t["v"], acc)
@@ -498,6 +586,9 @@ def scan(t, acc):
 KEYS = ["k", "a", "b", "0", "1", 1, 0, -3, True, None]
 
 
+NON_ASCII = ["\u00e9", "\u03a9\u00e7\u2248", "na\u00efve input0", "\u2028", "\U0001f600", "a\x00b", "\\\"", "\u00df\U0001d11e\u4e2d"]
+
+
 def gen_payload(rng, fl, depth=0):
     """a payload TAG; fl = {"rich": bool, "special": None | "nan" | "byval" | "hook"}"""
     x = rng.random()
@@ -506,6 +597,10 @@ def gen_payload(rng, fl, depth=0):
     if x < 0.45 or depth >= 3:
         reg = None
         leaf = rng.choice([0, 1, 7, -2, "s", "input0", "", True, False, None])
+        if rng.random() < 0.12:                       # non-ASCII text (BMP, astral, line separator, NUL, a lone quote / backslash)
+            leaf = rng.choice(NON_ASCII)
+        if fl["rich"] and rng.random() < (0.3 if fl["special"] == "val" else 0.08):
+            return val_tag(rng.choice(VALS))
         if fl["rich"] and rng.random() < 0.35:
             leaf = rng.choice([0.5, -0.0, 1e300, float("inf"), float("-inf"), 2.0, -1.25, 0.1, 1 / 3, 2.5e-7, 123456.789012345, 5e-324, 10 ** 20])
         if fl["rich"] and rng.random() < 0.15:
@@ -547,6 +642,10 @@ def gen_node_payload(rng, fl, hooks_used):
         return rng.choice([{"t": "float", "nan": True, "v": "nan"}, {"t": "list", "v": [{"t": "float", "nan": True, "v": "nan"}]}])
     if sp == "byval" and r < 0.3:                  # fluent style: (function, args, kwargs)
         return {"t": "tuple", "v": [{"t": "atom", "ref": False, "id": 10 + rng.randrange(4)}, {"t": "list", "v": [{"t": "str", "v": "input0"}]}, {"t": "dict", "v": []}]}
+    if sp == "val" and r < 0.3:                    # a value leaf as the whole payload / inside a fluent-style payload
+        v = val_tag(rng.choice(VALS))
+        return v if r < 0.15 else {"t": "tuple", "v": [{"t": "atom", "ref": True, "id": rng.randrange(len(REF_FUNCS))}, {"t": "list", "v": [v]},
+                                                     {"t": "dict", "v": [[tag_key("k"), val_tag(rng.choice(VALS))]]}]}
     if fl["rich"] and r > 0.9:
         return {"t": "tuple", "v": [{"t": "atom", "ref": True, "id": rng.randrange(len(REF_FUNCS))}, {"t": "list", "v": [{"t": "int", "v": 1}]}, {"t": "dict", "v": []}]}
     p = gen_hook(rng, fl, 0) if sp == "hook" and r < 0.3 else gen_payload(rng, fl)
@@ -611,7 +710,7 @@ def gen_spec(rng, maxn, plain=False, forced_ok=True):
     n = rng.choice([0, 1, 2]) if rng.random() < 0.08 else rng.randint(2, maxn)
     collide = rng.random() < 0.55
     rich = (not plain) and rng.random() < 0.5
-    fl = {"rich": rich, "special": rng.choice([None, "nan", "byval", "hook"]) if rich else None,
+    fl = {"rich": rich, "special": rng.choice([None, "nan", "byval", "hook", "val", "val"]) if rich else None,
           "jsonish": (not rich) and rng.random() < 0.5}          # payloads JSON represents faithfully: no tuples, string keys
     hooks_used = {}
     names = []
@@ -625,18 +724,24 @@ def gen_spec(rng, maxn, plain=False, forced_ok=True):
             outputs = []
         elif collide:
             # output names from the pool and from the names of the nodes (this one's too)
-            outputs = rng.sample(sorted(set(pool) | set(names)), rng.randint(1, 3))
+            outputs = rng.sample(sorted(set(pool) | set(names)), rng.choice([1, 1, 2, 2, 3, 3, 4, 5, 6]))
         else:
-            outputs = rng.choice([["x", "y"], ["0", "1", "2"], ["out"], ["0", "aux"], ["b", "a"]])
+            outputs = list(rng.choice([["x", "y"], ["0", "1", "2"], ["out"], ["0", "aux"], ["b", "a"], ["a", "b", "c", "d"],
+                                       ["0", "1", "2", "3", "4", "5"], ["y", "x", "0", "out", "aux"]]))
+        if outputs and outputs != [D] and rng.random() < (0.15 if collide else 0.08):
+            # the same output name twice (the constructor takes any list; inside the quantifier: only NODE names are unique)
+            outputs.insert(rng.randint(0, len(outputs)), rng.choice(outputs))
+            if rng.random() < 0.2:
+                outputs.append(outputs[0])
         cands = [(p["name"], o) for p in nodes for o in p["outputs"]]
         inputs = []
         if cands:
-            k = rng.choice([0, 1, 1, 2, 2, 3])
+            k = rng.choice([0, 1, 1, 2, 2, 3, 3, 4, 5, 6])
             if collide:
                 ipool = sorted((set(pool) | set(names) | {o for _, o in cands}) - not_a_param)
             else:
-                ipool = ["input0", "input1", "a", "b", "in"]
-            inames = rng.sample(ipool, k)
+                ipool = ["input0", "input1", "a", "b", "in", "input2", "input3", "c", "input10"]
+            inames = rng.sample(ipool, min(k, len(ipool)))
             if k and rng.random() < 0.12:             # a parameter name of the (de)serialisation functions as input name
                 cand = [p for p in params if p not in not_a_param and p not in inames]
                 if cand:
@@ -674,6 +779,8 @@ def gen_spec(rng, maxn, plain=False, forced_ok=True):
         inner = [nd["name"] for nd in nodes if nd["name"] in consumed]
         sinks = list(terminal) + rng.sample(inner, min(len(inner), rng.randint(1, 2)))
     rng.shuffle(sinks)
+    if sinks and rng.random() < 0.06:                 # the same node object twice in Graph.sinks
+        sinks.insert(rng.randint(0, len(sinks)), rng.choice(sinks))
     return {"kind": "dag", "nodes": nodes, "sinks": sinks}
 
 
@@ -752,7 +859,8 @@ def build_fluent(desc):
             cur = nxt
             acts.append(cur)
             applied.append("map-by-value-callable" if st[0] == "map" and st[1].startswith("byval") else st[0])
-        except Exception:
+        except Exception as e:
+            applied.append("rejected:%s:%s" % (st[0], type(e).__name__))
             continue
     if desc["union"] and len(acts) > 1:
         g = Cascade.from_actions([acts[len(acts) // 2], cur])._graph
@@ -819,7 +927,7 @@ def spec_of_graph(g, desc, reg):
 
 
 def canon_node(name, outputs, payload, inputs):
-    return {"name": name, "outputs": list(outputs), "payload": payload, "inputs": sorted([list(i) for i in inputs])}
+    return {"name": name, "outputs": list(outputs), "payload": payload, "inputs": [list(i) for i in inputs]}     # dict order of inputs is compared
 
 
 def canon_graph_real(g, reg):
@@ -831,13 +939,13 @@ def canon_ser_real(d, reg):
     out = []
     for name, e in d.items():
         out.append([name, {"outputs": list(e.get("outputs", [])),
-                           "inputs": sorted([[k, tag_ref(r)] for k, r in e.get("inputs", {}).items()], key=lambda x: x[0]),
+                           "inputs": [[k, tag_ref(r)] for k, r in e.get("inputs", {}).items()],
                            "payload": tag(e["payload"], reg, register=False) if "payload" in e and e["payload"] is not None else None}])
     return sorted(out, key=lambda x: x[0])
 
 
 def canon_ser_model(l, reg):
-    return sorted([[name, {"outputs": e["outputs"], "inputs": sorted(e["inputs"], key=lambda x: x[0]),
+    return sorted([[name, {"outputs": e["outputs"], "inputs": e["inputs"],
                            "payload": None if e["payload"] is None or e["payload"]["t"] == "none" else canon_model_pv(e["payload"], reg)}] for name, e in l],
                   key=lambda x: x[0])
 
@@ -962,6 +1070,10 @@ def has_by_value_object(p):
         return any(has_by_value_object(x) for x in p)
     if isinstance(p, dict):
         return any(has_by_value_object(v) for v in p.values())
+    if isinstance(p, (set, frozenset)):
+        return any(has_by_value_object(x) for x in p)
+    if type(p).__eq__ is not object.__eq__ and not isinstance(p, (types.FunctionType, types.BuiltinFunctionType, functools.partial)):
+        return False                                  # the object has a value of its own (bytes, complex, a class with __eq__)
     return not by_ref(p)
 
 
@@ -989,6 +1101,8 @@ def oracle_compare(path, orig_sinks, res_graph, need_payload, demand_eq, eq, eq_
             return ({"kind": "outputs-differ", "path": path}, f"{path}: node {name!r} outputs {ra['outputs']} came back as {rb['outputs']}")
         if ra["inputs"] != rb["inputs"]:
             return ({"kind": "inputs-differ", "path": path}, f"{path}: node {name!r} inputs {ra['inputs']} came back as {rb['inputs']}")
+        if list(ra["inputs"]) != list(rb["inputs"]):
+            return ({"kind": "inputs-reordered", "path": path}, f"{path}: node {name!r} inputs {list(ra['inputs'])} came back in the order {list(rb['inputs'])}")
     for name, ra in a.items():
         rb = b[name]
         pa, pb = ra["payload"], rb["payload"]
@@ -1003,9 +1117,13 @@ def oracle_compare(path, orig_sinks, res_graph, need_payload, demand_eq, eq, eq_
     # `==` must say what Python's comparison of the payloads says (names, outputs, inputs are the same by now)
     pe = [py_eq(b[n]["payload"], a[n]["payload"]) for n in a]
     pr = [py_eq(a[n]["payload"], b[n]["payload"]) for n in a]
-    if None not in pe and None not in pr and (eq != all(pe) or eq_rev != all(pr)):
+    # a payload comparison that raises: `==` (which did return a bool, or we would not be here) can only have said False after
+    # meeting a differing payload first; with no differing payload it must have raised too
+    want = [False if False in l else (None if None in l else True) for l in (pe, pr)]
+    if eq != want[0] or eq_rev != want[1]:
         return ({"kind": "eq-inconsistent", "path": path},
-                f"{path}: nodes, outputs, inputs agree and the payload comparisons give {all(pe)}/{all(pr)}, but result == original is {eq}, original == result is {eq_rev}")
+                f"{path}: nodes, outputs, inputs agree and the payload comparisons give {want[0]}/{want[1]} (None: a comparison raised), "
+                f"but result == original is {eq}, original == result is {eq_rev}")
     if demand_eq and not (eq and eq_rev):
         causes = set()
         for n, ok in zip(a, pe):
@@ -1021,12 +1139,12 @@ def oracle_compare(path, orig_sinks, res_graph, need_payload, demand_eq, eq, eq_
                 causes = None
                 break
             causes |= c
-        sig = {"kind": "not-equal", "path": path}
-        why = ""
         if causes:
-            sig["cause"] = "+".join(sorted(causes))
-            why = " (every differing payload holds: %s)" % sig["cause"]
-        return (sig, f"{path} round trip: result == original is {eq}, original == result is {eq_rev}" + why)
+            # every payload that compares unequal is the SAME payload (checked above by same_payload) of a kind whose own `==` is
+            # not reflexive across copies: a NaN, or an object without a value (a function) that the file path has to re-create.
+            # The property demands the same nodes, outputs, inputs and payloads - not more than Python's `!=` can see: measured.
+            return ("measured", "%s:%s" % (path, "+".join(sorted(causes))))
+        return ({"kind": "not-equal", "path": path}, f"{path} round trip: result == original is {eq}, original == result is {eq_rev}")
     return None
 
 
@@ -1057,25 +1175,38 @@ def run_case(spec, g=None, reg=None):
     except Exception as e:
         impl["json_ser"] = "crash:" + type(e).__name__
     outside = any(n.get("forced") for n in spec["nodes"])
+    measured = impl["_measured"] = []
+    json_says_no = set()
+    for p in sers:                                 # json itself (not to_json) on each serialised payload: its own TypeError messages
+        try:
+            json.dumps(p)
+        except TypeError as e:
+            json_says_no.add(str(e)[:160])
+        except Exception:
+            pass
     for path, fn, need, demand in paths:
         out, r = round_real(g, fn, reg)
         impl[path] = {k: v for k, v in out.items() if k != "msg"}
-        if outside:
-            continue
         if not out["ok"]:
-            if path == "json" and out["err"] == "TypeError" and not all(jsonable(p) for p in sers):
-                continue                       # json.dumps does not take the payloads: outside the JSON clause
+            if outside and out["err"] == "TypeError" and ("multiple values" in out.get("msg", "") or path == "json" and json_says_no):
+                measured.append("%s:TypeError-for-input-named-like-Node.__init__-parameter" % path)
+                continue                       # outside the quantifier: the constructor cannot build such a node
+            if path == "json" and out["err"] == "TypeError" and out.get("msg", "") in json_says_no:
+                measured.append("json:TypeError-from-json.dumps")
+                continue                       # json.dumps does not take the payloads (its own message): outside the JSON clause
             fails.append(({"kind": "roundtrip-crash", "path": path, "exc": out["err"]}, f"{path} round trip raised {out['err']}: {out.get('msg', '')}"))
             continue
         f = oracle_compare(path, g.sinks, r, need, demand, out["eq"], out["eq_rev"])
-        if f:
+        if f and f[0] == "measured":
+            measured.append("eq-false-by-python-semantics:" + f[1])
+        elif f:
             fails.append(f)
     # the node factory is the documented way back for payload objects with a serialise() method
     out, r = round_real(g, lambda: deserialise(serialise(g), node_factory=inv_factory), reg, with_eq=False)
     if out["ok"]:
         out["nodes"] = [dict(n, payload=by_state(n["payload"])) for n in out["nodes"]]
     impl["dict_inv"] = {k: v for k, v in out.items() if k != "msg"}
-    if hooks and all(h.marked for h in hooks) and not outside:
+    if hooks and all(h.marked for h in hooks) and (not outside or out["ok"]):
         if not out["ok"]:
             fails.append(({"kind": "roundtrip-crash", "path": "dict+factory", "exc": out["err"]}, f"deserialise with a node factory raised {out['err']}: {out.get('msg', '')}"))
         else:
@@ -1085,9 +1216,25 @@ def run_case(spec, g=None, reg=None):
     return impl, fails, reg
 
 
+_BREAKS = {c: "\ue000%04x;" % ord(c) for c in "\x85\u2028\u2029\ue000"}
+
+
+def lean_safe(o):
+    """core.lean_drive splits the driver's output with str.splitlines(), which also breaks at U+0085 / U+2028 / U+2029 (the Lean
+    printer writes them raw): strings are opaque to the model, so such characters travel under an injective escape, applied to
+    what goes to the driver and to the real side's results before the comparison."""
+    if isinstance(o, str):
+        return "".join(_BREAKS.get(c, c) for c in o) if any(c in _BREAKS for c in o) else o
+    if isinstance(o, list):
+        return [lean_safe(x) for x in o]
+    if isinstance(o, dict):
+        return {k: lean_safe(v) for k, v in o.items()}
+    return o
+
+
 def model_line(spec):
-    return json.dumps({"op": "graph", "sinks": spec["sinks"],
-                       "nodes": [{"name": n["name"], "outputs": n["outputs"], "payload": n["payload"], "inputs": n["inputs"]} for n in spec["nodes"]]})
+    return json.dumps(lean_safe({"op": "graph", "sinks": spec["sinks"],
+                                 "nodes": [{"name": n["name"], "outputs": n["outputs"], "payload": n["payload"], "inputs": n["inputs"]} for n in spec["nodes"]]}))
 
 
 def compare_graph(ctx, spec, impl, mo, reg):
@@ -1102,9 +1249,120 @@ def compare_graph(ctx, spec, impl, mo, reg):
               ("file-roundtrip", canon_round_model(mo["file"], reg), impl["file"]),
               ("factory-roundtrip", canon_round_model(mo["dict_inv"], reg, with_eq=False, state=True), impl["dict_inv"])]
     for where, m, i in checks:
-        if m != i:
+        if m != lean_safe(i):
             ctx.disagree(where, {"spec": spec}, m, i)
             return
+
+
+# ----------------------------------------------------------------------------- `==` on graphs that differ
+# The round trips alone evaluate Graph.__eq__ almost only on equal graphs (an `__eq__` that ignores outputs or inputs would pass):
+# each probe compares a graph with a copy that has ONE small change (or none) - model `graphEq` against the real `==`, and the
+# oracle's own structural comparison (property text: same nodes, outputs, inputs, payloads) against the real `==`.
+
+PERTURB = ["payload", "outputs-reversed", "output-repeated", "output-added", "input-renamed", "input-rewired", "input-dropped",
+           "inputs-reordered", "node-renamed", "sink-dropped", "identical"]
+
+
+def gen_perturb(rng, spec):
+    """(kind, copy of the DAG spec with one change of that kind), or None"""
+    import copy
+    if not spec["nodes"] or any(n.get("forced") for n in spec["nodes"]):
+        return None
+    kinds = list(PERTURB)
+    rng.shuffle(kinds)
+    for kind in kinds:
+        s2 = copy.deepcopy(spec)
+        nodes = s2["nodes"]
+        names = {n["name"] for n in nodes}
+        n = rng.choice(nodes)
+        if kind == "payload":
+            n["payload"] = {"t": "str", "v": "__perturbed__"}
+        elif kind == "outputs-reversed":
+            c = [m for m in nodes if m["outputs"] != m["outputs"][::-1]]
+            if not c:
+                continue
+            n = rng.choice(c)
+            n["outputs"], n["dflt"] = n["outputs"][::-1], False
+        elif kind == "output-repeated":
+            c = [m for m in nodes if m["outputs"]]
+            if not c:
+                continue
+            n = rng.choice(c)
+            n["outputs"], n["dflt"] = n["outputs"] + [rng.choice(n["outputs"])], False
+        elif kind == "output-added":
+            n["outputs"], n["dflt"] = n["outputs"] + ["zz_extra"], False
+        elif kind in ("input-renamed", "input-rewired", "input-dropped", "inputs-reordered"):
+            c = [m for m in nodes if len(m["inputs"]) >= (2 if kind == "inputs-reordered" else 1)]
+            if not c:
+                continue
+            n = rng.choice(c)
+            j = rng.randrange(len(n["inputs"]))
+            if kind == "input-renamed":
+                if "zz_in" in [i[0] for i in n["inputs"]]:
+                    continue
+                n["inputs"][j][0] = "zz_in"
+            elif kind == "input-dropped":
+                del n["inputs"][j]
+            elif kind == "inputs-reordered":
+                n["inputs"] = n["inputs"][1:] + n["inputs"][:1]
+            else:
+                cands = [[p["name"], o] for p in nodes[:nodes.index(n)] for o in p["outputs"] if [p["name"], o] != n["inputs"][j][1:]]
+                if not cands:
+                    continue
+                n["inputs"][j][1:] = rng.choice(cands)
+        elif kind == "node-renamed":
+            old, new = n["name"], n["name"] + "~"
+            if new in names:
+                continue
+            n["name"] = new
+            for m in nodes:
+                for i in m["inputs"]:
+                    if i[1] == old:
+                        i[1] = new
+            s2["sinks"] = [new if x == old else x for x in s2["sinks"]]
+        elif kind == "sink-dropped":
+            if len(set(s2["sinks"])) < 2:
+                continue
+            victim = rng.choice(s2["sinks"])
+            s2["sinks"] = [x for x in s2["sinks"] if x != victim]
+        return kind, s2
+    return None
+
+
+def structurally_equal(g, g2):
+    """property text: same nodes, outputs, inputs (a dict: order does not count) and payloads (Python's own comparison; None if it
+    raises with no differing payload before)"""
+    a, _, _ = walk(g.sinks)
+    b, _, _ = walk(g2.sinks)
+    if set(a) != set(b):
+        return False
+    for name, ra in a.items():
+        if ra["outputs"] != b[name]["outputs"] or ra["inputs"] != b[name]["inputs"]:
+            return False
+    pe = [py_eq(a[n]["payload"], b[n]["payload"]) for n in a]
+    return False if False in pe else (None if None in pe else True)
+
+
+def run_perturb(spec, kind, spec2):
+    """real `==` both ways on the two graphs (opaque objects of one identity are the same object in both) + oracle"""
+    reg = Reg()
+    try:
+        g, g2 = build_real(spec, reg), build_real(spec2, reg)
+        out = {"eq": bool(g == g2), "eq_rev": bool(g2 == g)}
+    except Exception as e:
+        return {"crash": type(e).__name__ + ": " + str(e)[:100]}, [({"kind": "eq-crash", "perturbation": kind}, f"`==` of a graph and its copy with change {kind!r} raised {type(e).__name__}: {e}")]
+    want, want_rev = structurally_equal(g, g2), structurally_equal(g2, g)
+    fails = []
+    if out["eq"] != want or out["eq_rev"] != want_rev:
+        fails.append(({"kind": "eq-wrong-on-different-graphs", "perturbation": kind},
+                      f"a graph and its copy with change {kind!r}: comparing nodes, outputs, inputs and payloads gives {want}/{want_rev}, "
+                      f"but graph == copy is {out['eq']}, copy == graph is {out['eq_rev']}"))
+    return out, fails
+
+
+def perturb_line(spec, spec2):
+    f = lambda s: {"sinks": s["sinks"], "nodes": [{"name": n["name"], "outputs": n["outputs"], "payload": n["payload"], "inputs": n["inputs"]} for n in s["nodes"]]}
+    return json.dumps(lean_safe({"op": "eq2", "a": f(spec), "b": f(spec2)}))
 
 
 # ----------------------------------------------------------------------------- damaged dicts
@@ -1194,6 +1452,17 @@ def _account(ctx, spec, impl):
                 ctx.count("input-named-like-parameter:" + i[0])
     for c in sorted(classes):
         ctx.count("graphs-with-payload-holding:" + c)
+    for m in impl.get("_measured", ()):
+        ctx.count("measured:" + m)
+    if spec["kind"] == "dag":
+        if any(len(set(n["outputs"])) < len(n["outputs"]) for n in spec["nodes"]):
+            ctx.count("graphs-with-duplicate-output-names")
+        if any(len(set(n["outputs"])) < len(n["outputs"]) and any(i[1] == n["name"] for m in spec["nodes"] for i in m["inputs"]) for n in spec["nodes"]):
+            ctx.count("graphs-with-duplicate-output-names-on-a-consumed-node")
+        ctx.count("max-outputs:%d" % max([len(n["outputs"]) for n in spec["nodes"]] + [0]))
+        ctx.count("max-inputs:%d" % max([len(n["inputs"]) for n in spec["nodes"]] + [0]))
+        if len(set(spec["sinks"])) < len(spec["sinks"]):
+            ctx.count("graphs-with-a-node-twice-in-sinks")
     for path in ("dict", "json", "file"):
         if path in impl:
             ctx.count("%s-roundtrip:%s" % (path, ("ok eq=%s" % impl[path]["eq"]) if impl[path]["ok"] else impl[path]["err"]))
@@ -1308,6 +1577,7 @@ def _cases(ctx, n_dag, n_fluent, n_damage, maxn):
         specs.append(gen_spec(ctx.rng, maxn))
     graphs = [None] * len(specs)
     regs = [None] * len(specs)
+    n_steps = n_rej = n_prog_rej = 0
     for _ in range(n_fluent):
         desc = gen_fluent(ctx.rng)
         try:
@@ -1315,18 +1585,36 @@ def _cases(ctx, n_dag, n_fluent, n_damage, maxn):
             reg = Reg()
             spec = spec_of_graph(g, desc, reg)
             for a in applied:
-                ctx.count("fluent-op:" + a)
+                ctx.count("fluent-step-" + a if a.startswith("rejected:") else "fluent-op:" + a)
+            n_steps += len(applied)
+            n_rej += sum(1 for a in applied if a.startswith("rejected:"))
         except Exception as e:
             ctx.count("fluent-program-rejected:" + type(e).__name__)
+            n_prog_rej += 1
             continue
         if spec["dups"]:                              # outside the property's quantifier (C14's matter)
             ctx.count("fluent-graph-with-duplicate-names-skipped")
+            n_prog_rej += 1
             continue
         specs.append(spec)
         graphs.append(g)
         regs.append(reg)
+    # floor: the fluent part of the tie must not fade away silently (an API change that makes the generated programs invalid)
+    if n_fluent >= 20 and (n_prog_rej * 4 > n_fluent or n_rej * 2 > max(n_steps, 1)):
+        ctx.disagree("fluent-generator", {"programs": n_fluent, "programs_rejected": n_prog_rej, "steps": n_steps, "steps_rejected": n_rej},
+                     "at least 3/4 of the fluent programs and 1/2 of their steps are accepted by the API", "fewer")
     damages = [gen_damage(ctx.rng, gen_spec(ctx.rng, 7, plain=ctx.rng.random() < 0.7, forced_ok=False)) for _ in range(n_damage)]   # at most ONE defect
     return specs, graphs, regs, damages
+
+
+def _perturbations(ctx, specs, rate):
+    out = []
+    for spec in specs:
+        if spec["kind"] == "dag" and ctx.rng.random() < rate:
+            p = gen_perturb(ctx.rng, spec)
+            if p:
+                out.append((spec, p[0], p[1]))
+    return out
 
 
 def _fluent_loss(ctx, g):
@@ -1364,6 +1652,14 @@ def _run(ctx, specs, graphs, regs, damages, compare=True):
                 f2 = [f for f in run_case(small)[1] if f[0] == sig]
                 case, what = {"spec": small}, (f2[0][1] if f2 else what)
             ctx.violation(sig, case, what)
+    perts = _perturbations(ctx, specs, 0.5)
+    pert_out = []
+    for spec, kind, spec2 in perts:
+        out, fails = run_perturb(spec, kind, spec2)
+        pert_out.append(out)
+        ctx.count("eq-probe:" + kind + (":" + ("crash" if "crash" in out else "eq=%s" % out["eq"])))
+        for sig, what in fails:
+            ctx.violation(sig, {"spec": spec, "perturbed": spec2, "perturbation": kind}, what)
     dam_out = []
     for c in damages:
         dam_out.append(run_damage(c))
@@ -1371,15 +1667,20 @@ def _run(ctx, specs, graphs, regs, damages, compare=True):
         ctx.count("damaged-dict-result:" + (dam_out[-1][0]["err"] if not dam_out[-1][0]["ok"] else "ok"))
     if not compare:
         return
-    lines = [model_line(s) for s in specs] + [json.dumps({"op": "deser", "data": c["data"]}) for c in damages]
+    lines = ([model_line(s) for s in specs] + [json.dumps(lean_safe({"op": "deser", "data": c["data"]})) for c in damages] +
+             [perturb_line(a, b) for a, _, b in perts])
     res = [json.loads(x) for x in lean_drive("C12", lines)]
     for spec, impl, mo, reg in zip(specs, impls, res, regs):
         ctx.traces += 1
         compare_graph(ctx, spec, impl, mo, reg)
+    for (spec, kind, spec2), out, mo in zip(perts, pert_out, res[len(specs) + len(damages):]):
+        ctx.traces += 1
+        if mo != out:
+            ctx.disagree("eq-on-different-graphs", {"spec": spec, "perturbed": spec2, "perturbation": kind}, mo, out)
     for c, (out, reg), mo in zip(damages, dam_out, res[len(specs):]):
         ctx.traces += 1
         m = canon_round_model(mo["deser"], reg, with_eq=False)
-        if m != out:
+        if m != lean_safe(out):
             ctx.disagree("deserialise-damaged", {"damage": c}, m, out)
 
 
@@ -1402,6 +1703,16 @@ def search(ctx, why):
 
 
 def replay(payload):
+    if "perturbed" in payload["case"]:
+        c = payload["case"]
+        for n in c["spec"]["nodes"] + c["perturbed"]["nodes"]:
+            n["payload"] = norm_tag(n["payload"])
+        print("graph     ", [[n["name"], n["outputs"], n["inputs"], n["payload"]] for n in c["spec"]["nodes"]], "sinks", c["spec"]["sinks"])
+        print("its copy  ", [[n["name"], n["outputs"], n["inputs"], n["payload"]] for n in c["perturbed"]["nodes"]], "sinks", c["perturbed"]["sinks"])
+        out, fails = run_perturb(c["spec"], c["perturbation"], c["perturbed"])
+        print("change", c["perturbation"], "->", out)
+        print("oracle:", fails)
+        return 1 if fails else 0
     spec = payload["case"]["spec"]
     g = reg = None
     if spec["kind"] == "fluent":
